@@ -2,10 +2,15 @@
    Proved in full for the Client (LifecycleProofs.v): for EVERY sequence of steps (any datagrams, any clock
    values) and application calls, the concatenation of all events ever reported is accepted by the automaton
    Idle -Connect-> Connected -Receive*-> Connected -Disconnect|Error-> Ended (Idle -Error-> Ended for a refused
-   or timed-out handshake), and nothing is accepted after Ended. For the Server the same grammar per address is
-   decided on the implementation by the lifecycle / forge / limits streams with the grammar oracle, plus the
-   per-handler lemmas of C07/C09 (partial for the server side). *)
-From UF Require Import Consts Base Frame Sender HalfConn Endpoint LifecycleProofs.
+   or timed-out handshake), and nothing is accepted after Ended. For the Server (ServerGrammar.v): for EVERY
+   history of steps (any datagrams from any addresses, any clock values), flushes, drops, sends and disconnect
+   calls, and EVERY address, the events about that address — with the application's own drop calls interleaved —
+   are accepted by the per-connection automaton Idle -Connect-> Conn -Receive*-> Conn -Disconnect|Error|drop-> Idle
+   (an Error while Idle is a refused or timed-out handshake): Receive and Disconnect only inside a connection, a
+   new Connect only after the previous connection has ended. The invariant: the address table has no duplicate
+   addresses and points at objects of that address, every object that is not finished is in the table, and the
+   automaton's state is "connected" exactly when the address is looked up to an Active or Closing object. *)
+From UF Require Import Consts Base Frame Codec Sender HalfConn Endpoint LifecycleProofs EndpointTotal ServerGrammar.
 
 Theorem C08_client_step_grammar :
   forall c vnow inbox c' evs sends,
@@ -20,6 +25,32 @@ Theorem C08_client_event_stream_wellformed :
 Proof. exact client_event_stream_wellformed. Qed.
 Print Assumptions C08_client_event_stream_wellformed.
 
+Theorem C08_server_event_stream_wellformed :
+  forall (A : N) cfg t0 seed (ops : list sv_op),
+    exists p, srun A PIdle (snd (fold_left (sv_trace_op) ops (server_new cfg t0 seed, []))) = Some p.
+Proof. exact server_event_grammar. Qed.
+Print Assumptions C08_server_event_stream_wellformed.
+
+(* non-vacuity: what the server automaton rejects, and a history with two connections of one address (ended by the
+   peer's disconnect and by the application's drop) and a refused request of another *)
+Example C08_server_grammar_examples :
+  srun 5 PIdle [TEv (EvConnect 5); TEv (EvReceive 5 [1]); TEv (EvDisconnect 5); TEv (EvConnect 5)] = Some PConn /\
+  srun 5 PIdle [TEv (EvConnect 5); TEv (EvConnect 5)] = None /\
+  srun 5 PIdle [TEv (EvReceive 5 [1])] = None /\ srun 5 PIdle [TEv (EvDisconnect 5)] = None /\
+  srun 5 PIdle [TEv (EvConnect 5); TEv (EvError 5 0); TEv (EvReceive 5 [])] = None /\
+  srun 5 PIdle [TEv (EvConnect 6); TEv (EvReceive 6 [2]); TEv (EvError 5 3)] = Some PIdle.
+Proof. repeat split; reflexivity. Qed.
+
+Example C08_server_history_example :
+  let cfg := mkSvConfig 4 2 true (mkEpConfig 100000 100000 1000 10000 false 1000 20000) in
+  let syn := write_handshake_syn PROTOCOL_VERSION 77 100000 1000 10000 in
+  let ops := [SvStep 0 [(5, syn)] [99]; SvStep 10 [(5, write_handshake_ack 99)] []; SvStep 20 [(5, write_disconnect)] [];
+              SvStep 30000 [] []; SvStep 30010 [(5, syn)] [100]; SvStep 30020 [(5, write_handshake_ack 100)] []; SvDrop 5;
+              SvStep 30030 [(6, write_handshake_syn 3 1 1 1 1)] []] in
+  snd (fold_left sv_trace_op ops (server_new cfg 0 1, []))
+  = [TEv (EvConnect 5); TEv (EvDisconnect 5); TEv (EvConnect 5); TDrop 5; TEv (EvError 6 2)].
+Proof. vm_compute. reflexivity. Qed.
+
 (* the automaton itself: what "well-formed" means *)
 Example C08_grammar_examples :
   run Idle [EvConnect 0; EvReceive 0 [1]; EvReceive 0 []; EvDisconnect 0] = Some Ended /\
@@ -29,4 +60,7 @@ Example C08_grammar_examples :
   run Idle [EvConnect 0; EvError 0 0; EvConnect 0] = None.
 Proof. repeat split; reflexivity. Qed.
 
+Check C08_server_event_stream_wellformed :
+  forall (A : N) cfg t0 seed (ops : list sv_op),
+    exists p, srun A PIdle (snd (fold_left (sv_trace_op) ops (server_new cfg t0 seed, []))) = Some p.
 Check C08_client_event_stream_wellformed.
